@@ -194,9 +194,11 @@ def actions(H, W, sym, thorough):
     return out
 
 
-def apply(a, act):
+def apply(a, act, keep=None):
     form, r0, r1, c0, c1, kind, rows = act
     block = make_block(kind, list(rows))
+    if keep is not None:
+        keep.append(block)
     if form == "region":
         a[r0:r1, c0:c1] = block
     elif form == "rows":
@@ -219,11 +221,33 @@ def step(acc, a, grid, W, act, history):
     kind_exp, g, free = expected(grid, W, r0, r1, c0, c1, bcells)
     case = {"history": [show_act(h) for h in history], "action": show_act(act), "grid_before": [C.show_cells(r) for r in grid]}
     before = canon(a)
+    kept = []
     try:
-        apply(a, act)
+        apply(a, act, kept)
         raised = None
     except Exception as ex:  # noqa
         raised = ex
+    # the block is the caller's object: using it afterwards must not reach into the array (and the array must not have changed it)
+    if raised is None and kind == "fsarray" and kept and hasattr(kept[0], "rows"):
+        blk = kept[0]
+        now0 = grid_of(a)
+        shape0 = a.shape
+        blk_rows0 = [C.cells(r) for r in blk.rows]
+        want_blk = block_cells(kind, list(rows))
+        if [strip(r) for r in blk_rows0] != [strip(r) for r in want_blk]:
+            acc.failure("C04:assignment_changed_the_block", case, "block rows now %r" % (blk_rows0,))
+        try:
+            from curtsies.formatstring import fmtstr as _f
+
+            n0 = len(blk.rows)
+            blk[n0 : n0 + 1, 0:0] = [""]  # grows the block by one blank row
+            if n0 and blk.num_columns >= 1:
+                blk[0] = _f("!")
+        except Exception:  # noqa
+            pass
+        if grid_of(a) != now0 or a.shape != shape0:
+            acc.failure("C04:array_aliases_the_assigned_block", case, "after growing / re-assigning a row of the block the array went from %r to %r" % (now0, grid_of(a)))
+            return None
     acc.transitions += 1
     acc.outcome(kind_exp + ("/raised" if raised else "/accepted"))
     if kind_exp == "error":
